@@ -22,9 +22,9 @@ Import ListNotations.
 
 Record field := mkfield { f_name : list Z; f_type : Z; f_order : Z }.
 Definition schema := list field.
-Definition value := list Z.
-Definition record := list value.
-Definition table := list record.
+Notation value := (list Z) (only parsing).
+Notation record := (list (list Z)) (only parsing).
+Notation table := (list (list (list Z))) (only parsing).
 
 (** width in bytes of one component of a number type: the 10 base types in the three flavours
     standard / native / little-endian; anything else is not a field type *)
